@@ -83,6 +83,18 @@ PROGRAMS = [
      '<xsl:template match="/"><xsl:for-each select="//*"><xsl:sort select="string-length(name()) mod 2 + count(*)" data-type="number"/>'
      '<xsl:sort select="e:twice(count(@*)) + string-length(name())" data-type="number" order="descending"/><xsl:value-of select="name()"/>,</xsl:for-each>{FAIL}|'
      '<xsl:for-each select="//*"><xsl:sort select="count(ancestor::*)" data-type="number" order="descending"/><xsl:value-of select="count(ancestor::*)"/></xsl:for-each></xsl:template>'),
+    # 9: failure INSIDE an attribute set (which is entered through the recursion guard of attribute sets), depending on the parameter p
+    ('<xsl:param name="p" select="\'g\'"/><xsl:output method="xml" omit-xml-declaration="yes"/>'
+     '<xsl:attribute-set name="a1" use-attribute-sets="a2"><xsl:attribute name="x"><xsl:value-of select="$p"/><xsl:if test="$p = \'s\'">{FAIL}</xsl:if></xsl:attribute></xsl:attribute-set>'
+     '<xsl:attribute-set name="a2"><xsl:attribute name="y">2</xsl:attribute></xsl:attribute-set>'
+     '<xsl:template match="/"><out xsl:use-attribute-sets="a1"><xsl:for-each select="//*"><xsl:element name="e" use-attribute-sets="a1"><xsl:value-of select="name()"/></xsl:element>'
+     '<xsl:copy use-attribute-sets="a2"/></xsl:for-each></out></xsl:template>'),
+    # 10: a key with the NAME of program 1's key and another definition, xsl:number and a match pattern with a predicate: whatever a
+    #     transformation caches per source document (key tables, counters, pattern results) must not serve the next stylesheet
+    ('<xsl:param name="p" select="1"/><xsl:key name="k" match="*" use="count(*)"/><xsl:output method="xml" omit-xml-declaration="yes"/>'
+     '<xsl:template match="/"><out leaves="{count(key(\'k\', 0))}" p="{$p}"><xsl:apply-templates select="//*"/></out></xsl:template>'
+     '<xsl:template match="*[*]"><b><xsl:number level="any" count="*[*]"/>:<xsl:value-of select="count(key(\'k\', count(*)))"/></b></xsl:template>'
+     '<xsl:template match="*"><l><xsl:number level="multiple" count="*"/>{FAIL}</l></xsl:template>'),
 ]
 OUTPUT_FAIL = {'badenc': '<xsl:output encoding="no-such-encoding-x"/>', 'compile': '<xsl:template match="/"><xsl:value-of select="$undeclared"/></xsl:template>'}
 
@@ -115,12 +127,14 @@ def histories(draw):
     parsed = {}
     if draw(st.sampled_from([0, 0, 0, 1])):
         # skeleton: the SAME compiled stylesheet (and parsed source) is run before, while and after a parameter makes it fail
-        # (programs 6 and 7 fail depending on p; the others fail or not whatever the parameter is), then the random walk goes on
+        # (programs 6, 7 and 9 fail depending on p; the others fail or not whatever the parameter is), then the random walk goes on
         compiled['S0'] = 0
         ops.append({'op': 'compile', 'name': 'S0', 'xsl': 0})
         if draw(st.booleans()):
             parsed['P0'] = 0
             ops.append({'op': 'parse', 'name': 'P0', 'xml': 0, 'form': draw(st.sampled_from(['native', 'xerces']))})
+
+        skel_events = draw(st.sampled_from([False, False, True]))
 
         def run():
             t = {'op': 'transform', 'compiled': 'S0'}
@@ -128,6 +142,8 @@ def histories(draw):
                 t['parsed'] = 'P0'
             else:
                 t['xml'] = 0
+            if skel_events:
+                t['outform'] = 'events'
             return t
         if draw(st.booleans()):
             ops.append(run())
@@ -158,6 +174,8 @@ def histories(draw):
                 t['parsed'] = draw(st.sampled_from(sorted(parsed)))
             else:
                 t['xml'] = draw(st.integers(0, len(docs) - 1))
+            if draw(st.sampled_from([0, 0, 0, 1])):
+                t['outform'] = 'events'    # the result goes to a FormatterListener of the caller instead of a stream
             ops.append(t)
         elif k == 8:
             name = 'S%d' % len(ops)
@@ -235,8 +253,10 @@ def check(ctx, case):
             else:
                 parts.append('xml=d%d' % op['xml'])
                 di = op['xml']
+            if op.get('outform'):
+                parts.append('outform=' + op['outform'])
             fields.append(('op', '\x1f'.join(parts)))
-            plan.append({'xsl': xi, 'xml': di, 'params': list(params), 'settings': dict(settings), 'installed': installed,
+            plan.append({'xsl': xi, 'xml': di, 'params': list(params), 'settings': dict(settings), 'installed': installed, 'outform': op.get('outform'),
                          'srcform': 'parsed-xerces' if 'parsed' in op and parsed[op['parsed']][1] == 'xerces' else 'stream'})
         elif o == 'compile':
             fields.append(('op', 'compile\x1f%s\x1fx%d' % (op['name'], op['xsl'])))
@@ -290,7 +310,7 @@ def check(ctx, case):
         if prev_failed and rc == '0':
             fail_then_ok = True
         prev_failed = rc != '0'
-        outcomes.append((i, p, rc, r.get('s%d.out' % i) or b'', r.gets('s%d.err' % i) or ''))
+        outcomes.append((i, p, rc, _events(r, 's%d.' % i) if p.get('outform') == 'events' else (r.get('s%d.out' % i) or b''), r.gets('s%d.err' % i) or ''))
     ctx.note(case, fail_then_ok or nparam_tr >= 2, ['ops:%d' % len(case['ops'])] + (['fail-then-ok'] if fail_then_ok else []) + (['param-survives'] if nparam_tr >= 2 else []) +
              sorted({'fail:' + s['fail'] for s in case['sheets']} | {'extra:%s' % s['extra'] for s in case['sheets'] if s['extra']}),
              sample_text={'ops': case['ops'][:12], 'sheets': case['sheets']})
@@ -298,8 +318,9 @@ def check(ctx, case):
         f = [('param', '%s\x1f%s\x1f%s' % x) for x in p['params']] + [('set.' + k, v) for k, v in p['settings'].items()] + [('res', 'd2.xml\0' + D2)]
         if p['installed']:
             f.append(('install', 1))
-        fr = ctx.drv.call('transform', f, xsl=sheets[p['xsl']].encode('utf-8'), xml=docs[p['xml']].encode('utf-8'), srcform=p['srcform'])
-        frc, fout, ferr = fr.gets('rc'), fr.get('out') or b'', fr.gets('err') or ''
+        kw = {'outform': 'events'} if p.get('outform') == 'events' else {}
+        fr = ctx.drv.call('transform', f, xsl=sheets[p['xsl']].encode('utf-8'), xml=docs[p['xml']].encode('utf-8'), srcform=p['srcform'], **kw)
+        frc, fout, ferr = fr.gets('rc'), (_events(fr, '') if kw else (fr.get('out') or b'')), fr.gets('err') or ''
         # the error text is compared (for emptiness) only for failing calls: with status 0 getLastError() may still hold the
         # text of an earlier failure, which the property (status and output) does not speak about
         e1 = bool(err.strip('\0')) if rc != '0' else None
@@ -309,6 +330,15 @@ def check(ctx, case):
                     'fresh': {'rc': frc, 'out': fout[:300].decode('latin-1'), 'err': ferr[:200]}, 'params': p['params'], 'settings': p['settings'],
                     'field': 'rc' if rc != frc else 'out' if out != fout else 'err', 'sheet': case['sheets'][p['xsl']]}
     return None
+
+
+def _events(resp, pfx):
+    """the FormatterListener events of one transformation (outform=events), as bytes that can be compared"""
+    out = []
+    for k, v in resp.fields:
+        if k.startswith(pfx) and re.fullmatch(r'[A-Z]{2}', k[len(pfx):]):
+            out.append(k[len(pfx):].encode('ascii') + b'\x1e' + v)
+    return b'\x1d'.join(out)
 
 
 def signature(case, detail):
